@@ -103,8 +103,6 @@ impl QueryDispatcher for DefaultQueryDispatcher {
             Ok(query::details::distance_convex_polyhedron_ball(
                 pos12, shape1, b2,
             ))
-        } else if let (Some(c1), Some(c2)) = (shape1.as_cuboid(), shape2.as_cuboid()) {
-            Ok(query::details::distance_cuboid_cuboid(pos12, c1, c2))
         } else if let (Some(s1), Some(s2)) = (shape1.as_segment(), shape2.as_segment()) {
             Ok(query::details::distance_segment_segment(pos12, s1, s2))
         } else if let (Some(p1), Some(s2)) =
